@@ -36,6 +36,7 @@ import (
 	consensusGenesis "github.com/oasisprotocol/oasis-core/go/consensus/genesis"
 	genesis "github.com/oasisprotocol/oasis-core/go/genesis/api"
 	governance "github.com/oasisprotocol/oasis-core/go/governance/api"
+	scheduler "github.com/oasisprotocol/oasis-core/go/scheduler/api"
 	staking "github.com/oasisprotocol/oasis-core/go/staking/api"
 
 	"github.com/oasisprotocol/oasis-core/go/common/cbor"
@@ -90,6 +91,8 @@ type history struct {
 	g        *muxdrv.Genesis
 	reps     []*muxdrv.Replica
 	sanity   *muxdrv.Replica
+	pendingSanity string // in-tree checker failed while the harness's oracle saw nothing (reported at the end of the history)
+	pendingHeight int
 	outsider *muxdrv.Replica // a node that is NOT registered: its blocks have no proposer entity
 	outAddr  []byte
 	chain    *muxdrv.Chain
@@ -102,6 +105,7 @@ type history struct {
 	camp      *campaign
 	lastWeights string
 	campNext  int
+	huge     bool           // genesis with balances around and above 2^64
 	victim   int            // repeated-slash regime: index of the validator that is slashed again and again (-1: none)
 	mock     bool           // MockEpochs history: epochs advance (and jump) only through SetEpoch transactions
 	frozen   map[int]bool   // validators frozen by an earlier slash (no unfreeze transactions are generated)
@@ -148,9 +152,24 @@ func newHistory(seed uint64, run int, sum *coqout.Summary, w *coqout.Writer) (*h
 	slashVariant := []string{"default", "default", "default", "third-of-escrow", "most-of-escrow", "double-escrow", "2^64-1", "double-escrow"}[gr.Intn(8)]
 	victimLowest := gr.Chance(50) // the lowest-address escrow account also holds the genesis debonding delegations
 	var victimAddr staking.Address
+	// huge genesis: total supply above 2^64 (one sub-variant near 2^128), balances, pool balances
+	// and share totals just below / at / above 2^64 so that ordinary credits cross the boundary
+	hugeVariant := "no"
+	hv := gr.Intn(20)
+	switch {
+	case run%7 == 3 && (run/7)%2 == 0, hv == 0:
+		hugeVariant = "2^64..2^70 (sqrt voting power)"
+	case run%7 == 3, hv == 1:
+		hugeVariant = "near 2^128 (stake bypassed)"
+	}
+	h.huge = hugeVariant != "no"
 	g, err := muxdrv.NewGenesis(seed*131+uint64(run), muxdrv.GenesisOpts{
 		Validators: 4, Accounts: 10, EpochInterval: 4, DebondingInterval: debInt, MockEpochs: h.mock,
+		BypassStake: strings.HasPrefix(hugeVariant, "near"),
 		Mutate: func(doc *genesis.Document) {
+			if h.huge {
+				hugeGenesis(doc, hugeVariant)
+			}
 			if slashVariant != "default" {
 				var esc []staking.Address
 				for a, acc := range doc.Staking.Ledger {
@@ -229,7 +248,7 @@ func newHistory(seed uint64, run int, sum *coqout.Summary, w *coqout.Writer) (*h
 			p.MinTransferAmount = *quantity.NewFromUint64(minTransfer)
 			p.RewardFactorBlockProposed = *quantity.NewFromUint64(factorProp)
 			p.RewardFactorEpochSigned = *quantity.NewFromUint64(factorSign)
-			if poolVariant != "comfortable" {
+			if poolVariant != "comfortable" && !h.huge {
 				// rewards of one AddRewards round (factor 1), in the call order (sorted addresses)
 				var addrs []staking.Address
 				for a, acc := range doc.Staking.Ledger {
@@ -285,6 +304,7 @@ func newHistory(seed uint64, run int, sum *coqout.Summary, w *coqout.Writer) (*h
 	h.campaigns = !h.mock && gr.Chance(85)
 	h.campNext = 1
 	sum.Count("genesis_governance_campaigns", fmt.Sprint(h.campaigns))
+	sum.Count("genesis_huge", hugeVariant)
 	sum.Count("genesis_slashing", slashVariant)
 	h.victim = -1
 	if slashVariant != "default" {
@@ -605,6 +625,21 @@ var (
 )
 
 func (h *history) amount(r *prng.R, ref *big.Int, lo uint64) (*big.Int, string) {
+	if h.huge && r.Chance(25) {
+		switch r.Intn(4) {
+		case 0:
+			return new(big.Int).Lsh(big.NewInt(1), 63), "2^63"
+		case 1:
+			return new(big.Int).Set(two64), "2^64"
+		case 2:
+			if ref.Cmp(two64) < 0 {
+				return new(big.Int).Sub(two64, ref), "2^64-ref"
+			}
+			return new(big.Int).Sub(ref, two64), "ref-2^64"
+		default:
+			return big.NewInt(int64(1000 + r.Intn(5000))), "thousands"
+		}
+	}
 	switch r.Intn(12) {
 	case 0:
 		return big.NewInt(0), "0"
@@ -924,6 +959,90 @@ func resultClass(tr *muxdrv.TxResult) string {
 
 // ---------- one block ----------
 
+var two64 = new(big.Int).Lsh(big.NewInt(1), 64)
+
+func below64(k int64) quantity.Quantity { return qty(new(big.Int).Sub(two64, big.NewInt(k))) }
+
+// hugeGenesis rewrites the generated ledger so that the total supply is far above 2^64 and
+// many balances / pool balances / share totals sit just below, at or above 2^64.
+func hugeGenesis(doc *genesis.Document, variant string) {
+	st := &doc.Staking
+	var esc, plain []staking.Address
+	for a, acc := range st.Ledger {
+		if !acc.Escrow.Active.Balance.IsZero() {
+			esc = append(esc, a)
+		} else {
+			plain = append(plain, a)
+		}
+	}
+	less := func(l []staking.Address) func(i, j int) bool {
+		return func(i, j int) bool { return bytes.Compare(l[i][:], l[j][:]) < 0 }
+	}
+	sort.Slice(esc, less(esc))
+	sort.Slice(plain, less(plain))
+	// validator entities: general balance just below 2^64 (fee credits cross it)
+	for i, a := range esc {
+		st.Ledger[a].General.Balance = below64([]int64{1, 6, 41, 1001}[i%4])
+	}
+	// the lowest-address validator's own escrow just below 2^64 (rewards and commission cross
+	// the pool balance and the share total)
+	{
+		a := esc[0]
+		acc := st.Ledger[a]
+		target := new(big.Int).Sub(two64, big.NewInt(2000))
+		delta := new(big.Int).Sub(target, acc.Escrow.Active.Balance.ToBigInt())
+		acc.Escrow.Active.Balance = qty(target)
+		acc.Escrow.Active.TotalShares = qty(new(big.Int).Add(acc.Escrow.Active.TotalShares.ToBigInt(), delta))
+		d := st.Delegations[a][a]
+		d.Shares = qty(new(big.Int).Add(d.Shares.ToBigInt(), delta))
+	}
+	// plain accounts around the boundary; the last of the list stays as generated
+	vals := []*big.Int{
+		new(big.Int).Add(new(big.Int).Lsh(big.NewInt(1), 63), big.NewInt(12345)),
+		new(big.Int).Sub(two64, big.NewInt(1)),
+		new(big.Int).Set(two64),               // an exact multiple of 2^64
+		new(big.Int).Lsh(big.NewInt(1), 65),   // another one
+		new(big.Int).Sub(two64, big.NewInt(77)),
+		new(big.Int).Sub(two64, big.NewInt(900)),
+		new(big.Int).Sub(two64, big.NewInt(30)),
+	}
+	for i, v := range vals {
+		if i < len(plain)-1 {
+			st.Ledger[plain[i]].General.Balance = qty(v)
+		}
+	}
+	if strings.HasPrefix(variant, "near") && len(plain) > 8 {
+		st.Ledger[plain[7]].General.Balance = qty(new(big.Int).Sub(new(big.Int).Lsh(big.NewInt(1), 128), big.NewInt(1000)))
+	}
+	// a non-validator escrow account: active pool and debonding pool just below 2^64
+	if len(plain) > 6 {
+		e, d1, d2 := plain[5], plain[6], plain[4]
+		act := new(big.Int).Sub(two64, big.NewInt(3000))
+		deb := new(big.Int).Sub(two64, big.NewInt(100))
+		st.Ledger[e].Escrow.Active = staking.SharePool{Balance: qty(act), TotalShares: qty(act)}
+		st.Ledger[e].Escrow.Debonding = staking.SharePool{Balance: qty(deb), TotalShares: qty(deb)}
+		st.Delegations[e] = map[staking.Address]*staking.Delegation{d1: {Shares: qty(act)}}
+		st.DebondingDelegations[e] = map[staking.Address][]*staking.DebondingDelegation{d2: {{Shares: qty(deb), DebondEndTime: 2}}}
+	}
+	// the common pool is the first addend of InitChain's supply summation: at or above 2^64 it
+	// keeps that running sum out of the 64-bit range from the start
+	st.CommonPool = qty(new(big.Int).Add(two64, big.NewInt(3000)))
+	if variant != "near 2^128 (stake bypassed)" {
+		doc.Scheduler.Parameters.VotingPowerDistribution = scheduler.VotingPowerDistributionSqrt
+	}
+	// total supply = sum of everything
+	total := new(big.Int)
+	for _, acc := range st.Ledger {
+		total.Add(total, acc.General.Balance.ToBigInt())
+		total.Add(total, acc.Escrow.Active.Balance.ToBigInt())
+		total.Add(total, acc.Escrow.Debonding.Balance.ToBigInt())
+	}
+	total.Add(total, st.CommonPool.ToBigInt())
+	total.Add(total, st.LastBlockFees.ToBigInt())
+	total.Add(total, st.GovernanceDeposits.ToBigInt())
+	st.TotalSupply = qty(total)
+}
+
 // campaign is one staking ChangeParameters proposal and the votes that make it pass.
 type campaign struct {
 	changes staking.ConsensusParameterChanges
@@ -1076,10 +1195,85 @@ func (h *history) warmup() (*blockOut, error) {
 	if _, err := h.outsider.Replay(in, txs); err != nil {
 		return nil, err
 	}
-	if _, err := h.sanity.Replay(in, txs); err != nil {
-		out.violations = append(out.violations, "in-tree supplementarysanity / replay failed: "+err.Error())
-	}
+	h.crossSanity(out, 1, func() error { _, err := h.sanity.Replay(in, txs); return err })
 	return out, nil
+}
+
+// crossSanity runs the in-tree supplementarysanity replica on the block. When the harness's
+// own oracle already found a violation in this block that one is reported; when only the
+// in-tree checker fails (it may itself be hit by a defect in the arithmetic it shares with the
+// ledger) the failure is remembered, the replica is dropped and the history goes on, so that an
+// independent S/K violation later in the history is reported first.
+func (h *history) crossSanity(out *blockOut, height int64, run func() error) {
+	if h.sanity == nil {
+		return
+	}
+	err := run()
+	if err == nil {
+		h.sum.Count("S_blocks", "in-tree-sanity-agrees")
+		return
+	}
+	msg := fmt.Sprintf("height %d: in-tree supplementarysanity / replay failed: %v", height, err)
+	if strings.Contains(err.Error(), "allowance is greater than total supply") {
+		// Allow bounds an allowance by the total supply at the time it is set; a later burn can
+		// take the supply below it, which only the in-tree checker objects to. Not a conservation
+		// or share-bookkeeping matter: recorded, the replica is dropped (it panicked).
+		h.sum.Count("in_tree_checker_other", "allowance above total supply after a burn (not part of C05)")
+		h.sanity.Close()
+		h.sanity = nil
+		return
+	}
+	if len(out.violations) > 0 {
+		out.violations = append(out.violations, msg)
+		return
+	}
+	if h.pendingSanity == "" {
+		h.pendingSanity = msg
+		h.pendingHeight = int(height)
+	}
+	h.sanity.Close()
+	h.sanity = nil
+}
+
+// countCrossings measures, between two consecutive block boundaries, the fields whose value
+// moved across 2^64 (up = a credit pushed it to or past 2^64) and the non-zero values that are
+// exact multiples of 2^64.
+func (h *history) countCrossings(pre, post *muxdrv.StakingDump) {
+	fields := func(d *muxdrv.StakingDump) map[string]*big.Int {
+		m := map[string]*big.Int{"common_pool": bi(d.CommonPool), "total_supply": bi(d.TotalSupply)}
+		for _, a := range d.Accounts {
+			m["general:"+a.Address] = bi(a.Balance)
+			m["active_balance:"+a.Address] = bi(a.Active.Balance)
+			m["active_shares:"+a.Address] = bi(a.Active.TotalShares)
+			m["debonding_balance:"+a.Address] = bi(a.Debonding.Balance)
+			m["debonding_shares:"+a.Address] = bi(a.Debonding.TotalShares)
+		}
+		for _, dl := range d.Delegations {
+			m["delegation:"+dl.Escrow+"/"+dl.Delegator] = bi(dl.Shares)
+		}
+		return m
+	}
+	a, b := fields(pre), fields(post)
+	mask := new(big.Int).Sub(two64, big.NewInt(1))
+	for k, nv := range b {
+		ov := a[k]
+		if ov == nil {
+			ov = new(big.Int)
+		}
+		kind := k
+		if i := strings.Index(k, ":"); i >= 0 {
+			kind = k[:i]
+		}
+		if ov.Cmp(two64) < 0 && nv.Cmp(two64) >= 0 {
+			h.sum.Count("crossed_2^64_upwards", kind)
+		}
+		if ov.Cmp(two64) >= 0 && nv.Cmp(two64) < 0 {
+			h.sum.Count("crossed_2^64_downwards", kind)
+		}
+		if nv.Sign() > 0 && nv.Cmp(ov) != 0 && new(big.Int).And(nv, mask).Sign() == 0 {
+			h.sum.Count("became_exact_multiple_of_2^64", kind)
+		}
+	}
 }
 
 // campaignTxs adds the governance campaign's transactions of this block: the proposal, then
@@ -1377,14 +1571,15 @@ func (h *history) block(blockNo int, total int) (*blockOut, error) {
 		out.violations = append(out.violations, fmt.Sprintf("height %d: total supply went from %s to %s but the burn events sum to %s", height, before, after, out.burned))
 	}
 	h.sum.Count("S_blocks", "checked")
+	h.countCrossings(pre.dump, post.dump)
 	// cross-check: the in-tree invariant checker on the same block
-	if rr, err := h.sanity.Replay(in, txs); err != nil {
-		out.violations = append(out.violations, fmt.Sprintf("height %d: in-tree supplementarysanity / replay failed: %v", height, err))
-	} else if !bytes.Equal(rr.AppHash, res.AppHash) {
-		out.violations = append(out.violations, fmt.Sprintf("height %d: the sanity replica diverges", height))
-	} else {
-		h.sum.Count("S_blocks", "in-tree-sanity-agrees")
-	}
+	h.crossSanity(out, height, func() error {
+		rr, err := h.sanity.Replay(in, txs)
+		if err == nil && !bytes.Equal(rr.AppHash, res.AppHash) {
+			err = fmt.Errorf("the sanity replica diverges")
+		}
+		return err
+	})
 
 	wnow := fmt.Sprintf("%s/%s/%s", qs(&pre.params.FeeSplitWeightPropose), qs(&pre.params.FeeSplitWeightVote), qs(&pre.params.FeeSplitWeightNextPropose))
 	if h.lastWeights != "" && h.lastWeights != wnow {
@@ -1638,6 +1833,21 @@ func runHistory(seed uint64, run, blocks int, sum *coqout.Summary, w *coqout.Wri
 		return
 	}
 	defer h.close()
+	defer func() {
+		// the in-tree checker failed somewhere and the harness's own oracle found nothing up to
+		// the end of the history: report the disagreement
+		if h.pendingSanity != "" {
+			for _, v := range sum.Violations {
+				if m, ok := v.(map[string]any); ok {
+					if cd, ok := m["case"].(caseDesc); ok && cd.Seed == seed && cd.Run == run {
+						return // an independent violation of this history is already reported
+					}
+				}
+			}
+			sum.Violations = append(sum.Violations, map[string]any{"what": h.pendingSanity + " (the harness's own oracle found no violation in this history)",
+				"case": caseDesc{Seed: seed, Run: run, Blocks: h.pendingHeight, Note: "history prefix ending at the block the in-tree checker rejected"}})
+		}
+	}()
 	for b := 0; b < blocks; b++ {
 		out, err := h.block(b, blocks)
 		if err == errHalt {
